@@ -15,6 +15,7 @@ from ..core import import_library
 from ..gen import engines as E
 from ..probe import Probe, Reach
 from ..ref import wiring as W
+from . import c08
 
 WORKERS = {"quick": 1, "thorough": 16}
 nan = math.nan
@@ -134,6 +135,15 @@ class HistoryMonitor:
             if len(ov.fuzzy.terms) != len(fv.fuzzy.terms) or any(a.term.name != b.term.name or not W.same(a.degree, b.degree) for a, b in zip(ov.fuzzy.terms, fv.fuzzy.terms)):
                 ctx.violation("fuzzy output of a processing step differs from a freshly built engine (history leaks)", dict(case, variable=ov.name), fv.fuzzy.parameters(), ov.fuzzy.parameters())
                 return
+        # what the step leaves on the rules (degree, triggered) is part of "no trace of earlier steps" too
+        for rb, fb in zip(engine.rule_blocks, fresh.rule_blocks):
+            if not rb.enabled:
+                continue  # a block that is switched off is not processed: its rules are not part of the step
+            for r, f in zip(rb.rules, fb.rules):
+                ctx.hit("compare:rule state vs fresh engine")
+                if bool(np.all(r.triggered)) != bool(np.all(f.triggered)) or not W.agree(ctx, r.activation_degree, f.activation_degree, "rule degree"):
+                    ctx.violation("a rule's degree / triggered flag after a processing step differs from a freshly built engine given the same inputs (history leaks)", dict(case, rule=r.text, block=rb.name), [f.activation_degree, f.triggered], [r.activation_degree, r.triggered])
+                    return
         ctx.nontrivial("process", str(engine), tuple(tuple(np.atleast_1d(np.asarray(v.value, dtype=float)).tolist()) for v in engine.input_variables))
 
     def _after_restart(self, args, kwargs, token, result, exc):
@@ -226,7 +236,8 @@ def run(ctx):
         mon = HistoryMonitor(ctx, fl)
         mon.install(probe)
         for i, rnd in ctx.cases("engines", nengines):
-            spec = E.gen_engine(rnd, activations=("General",), d=3, kinds=("integral", "ts", "ts", "tsukamoto", "inverse"), resolutions=[2, 5, 10, 37, 100], free_weights=True, share_defuzzifier=True, routes=True)
+            scalar_only = i % 4 == 3  # every activation method; these engines are fed one row at a time
+            spec = E.gen_engine(rnd, activations=tuple(c08.METHODS) if scalar_only else ("General",), d=3, kinds=("integral", "ts", "ts", "tsukamoto", "inverse"), resolutions=[2, 5, 10, 37, 100], free_weights=True, share_defuzzifier=True, routes=True, allow_output_antecedent=not scalar_only)
             for o in spec["outputs"]:
                 o["lock_previous"] = False
             factory = lambda spec=spec: E.build(fl, spec)  # noqa: E731
@@ -239,11 +250,11 @@ def run(ctx):
             keep = [engine]  # keep every engine alive so that ids are not reused
             ops = []
             for _ in range(nops):
-                op = rnd.choice(["inputs", "inputs", "refill", "process", "process", "process", "restart", "copy", "edit", "toggle"])
+                op = rnd.choice(["inputs", "inputs", "refill", "process", "process", "process", "restart", "copy", "edit", "toggle", "unload-restart"])
                 ops.append(op)
                 try:
                     if op == "inputs":
-                        n = rnd.choice([1, 1, 1, 3])
+                        n = 1 if scalar_only else rnd.choice([1, 1, 1, 3])
                         rows = E.rows(rnd, spec, n)
                         typed = rnd.choice([None, None, None, "int array", "bool array", "python int", "list"])
                         for k, v in enumerate(engine.input_variables):
@@ -269,6 +280,15 @@ def run(ctx):
                     elif op == "process":
                         engine.process()
                     elif op == "restart":
+                        engine.restart()
+                    elif op == "unload-restart":
+                        # rules that are unloaded when restart() is called (left over from a rejected load, or unloaded by hand)
+                        # are loaded again by it, like those of a freshly built engine
+                        for rb in engine.rule_blocks:
+                            for rule in rb.rules:
+                                if rnd.random() < 0.4:
+                                    rule.unload()
+                                    ctx.hit("event:rule unloaded before restart")
                         engine.restart()
                     elif op == "copy":
                         dup = engine.copy()
@@ -308,4 +328,4 @@ def run(ctx):
             mon.fresh = {}
         probe.report(ctx)
         reach.report(ctx)
-    ctx.require("hook:Engine.process", "hook:Engine.restart", "hook:Engine.copy", "compare:process vs fresh engine", "compare:restart", "compare:copy", "compare:edit isolation", "graph:objects walked", "event:input arrays refilled in place", "event:toggle and restore", "input type:int array", "input type:bool array", "input type:python int", "input type:list")
+    ctx.require("hook:Engine.process", "hook:Engine.restart", "hook:Engine.copy", "compare:process vs fresh engine", "compare:rule state vs fresh engine", "event:rule unloaded before restart", "compare:restart", "compare:copy", "compare:edit isolation", "graph:objects walked", "event:input arrays refilled in place", "event:toggle and restore", "input type:int array", "input type:bool array", "input type:python int", "input type:list")
